@@ -28,6 +28,7 @@ import (
 
 	"verif/core"
 
+	"github.com/dappledger/AnnChain/chain/app/evm"
 	"github.com/dappledger/AnnChain/eth/common"
 	ecore "github.com/dappledger/AnnChain/eth/core"
 	estate "github.com/dappledger/AnnChain/eth/core/state"
@@ -161,6 +162,10 @@ type replica struct {
 	txs     []txObs
 	curTx   *txObs
 	dead    bool
+
+	// part 3 only: the real application instead of the stand-in
+	real *evm.EVMApp
+	meta *blockMetaCore
 }
 
 // curReplica is the replica whose block is executing: the AdminOP precompile
@@ -284,6 +289,20 @@ var evmCfg = vm.Config{EVMGasLimit: 100000000}
 func (r *replica) onExecute(ed gtypes.EventDataHookExecute) {
 	var res gtypes.ExecuteResult
 	curReplica = r
+	if r.real != nil {
+		r.txs = append(r.txs, txObs{})
+		r.curTx = &r.txs[0]
+		out, err := r.real.OnExecute(ed.Block.Height, ed.Round, ed.Block)
+		r.curTx = nil
+		if er, ok := out.(gtypes.ExecuteResult); ok {
+			res = er
+		}
+		if err != nil {
+			res.Error = err
+		}
+		ed.ResCh <- res
+		return
+	}
 	st, err := estate.New(r.appRoot, estate.NewDatabase(r.edb))
 	if err != nil {
 		res.Error = err
@@ -327,6 +346,14 @@ func (r *replica) onExecute(ed gtypes.EventDataHookExecute) {
 }
 
 func (r *replica) onCommit(ed gtypes.EventDataHookCommit) {
+	if r.real != nil {
+		out, err := r.real.OnCommit(ed.Block.Height, ed.Round, ed.Block)
+		if err != nil {
+			core.Fatal("EVMApp.OnCommit: %v", err)
+		}
+		ed.ResCh <- out.(gtypes.CommitResult)
+		return
+	}
 	root, err := r.cur.Commit(true)
 	if err == nil {
 		err = r.cur.Database().TrieDB().Commit(root, false)
